@@ -4,8 +4,12 @@ import (
 	"bytes"
 	"fmt"
 	"go/ast"
+	"go/parser"
 	"go/printer"
 	"go/token"
+	"os"
+	"path/filepath"
+	"sort"
 	"strconv"
 	"strings"
 )
@@ -153,6 +157,117 @@ func countLoops(fd *ast.FuncDecl) int {
 		return true
 	})
 	return n
+}
+
+// packageVarsUsed lists (sorted) the package-level variables (not constants, not functions) of the
+// package in dir that fn references, directly or through the package's own functions it calls.
+func packageVarsUsed(repo, dir, fn string) ([]string, error) {
+	fset := token.NewFileSet()
+	pkgs, err := parser.ParseDir(fset, filepath.Join(repo, dir), func(fi os.FileInfo) bool {
+		return !strings.HasSuffix(fi.Name(), "_test.go")
+	}, 0)
+	if err != nil {
+		return nil, err
+	}
+	vars := map[string]bool{}
+	funcs := map[string]*ast.FuncDecl{}
+	for _, pkg := range pkgs {
+		for _, f := range pkg.Files {
+			for _, d := range f.Decls {
+				switch x := d.(type) {
+				case *ast.GenDecl:
+					if x.Tok == token.VAR {
+						for _, sp := range x.Specs {
+							for _, n := range sp.(*ast.ValueSpec).Names {
+								vars[n.Name] = true
+							}
+						}
+					}
+				case *ast.FuncDecl:
+					if x.Recv == nil {
+						funcs[x.Name.Name] = x
+					}
+				}
+			}
+		}
+	}
+	root, ok := funcs[fn]
+	if !ok {
+		return nil, fmt.Errorf("%s not found in %s", fn, dir)
+	}
+	used := map[string]bool{}
+	seen := map[string]bool{}
+	var visit func(fd *ast.FuncDecl)
+	visit = func(fd *ast.FuncDecl) {
+		if fd == nil || fd.Body == nil || seen[fd.Name.Name] {
+			return
+		}
+		seen[fd.Name.Name] = true
+		// names declared inside the function (params, results, :=, var) shadow package-level ones
+		local := map[string]bool{}
+		for _, fl := range [](*ast.FieldList){fd.Type.Params, fd.Type.Results} {
+			if fl != nil {
+				for _, f := range fl.List {
+					for _, n := range f.Names {
+						local[n.Name] = true
+					}
+				}
+			}
+		}
+		ast.Inspect(fd.Body, func(n ast.Node) bool {
+			switch x := n.(type) {
+			case *ast.AssignStmt:
+				if x.Tok == token.DEFINE {
+					for _, l := range x.Lhs {
+						if id, ok := l.(*ast.Ident); ok {
+							local[id.Name] = true
+						}
+					}
+				}
+			case *ast.ValueSpec:
+				for _, id := range x.Names {
+					local[id.Name] = true
+				}
+			case *ast.RangeStmt:
+				if x.Tok == token.DEFINE {
+					for _, e := range []ast.Expr{x.Key, x.Value} {
+						if id, ok := e.(*ast.Ident); ok {
+							local[id.Name] = true
+						}
+					}
+				}
+			}
+			return true
+		})
+		ast.Inspect(fd.Body, func(n ast.Node) bool {
+			switch x := n.(type) {
+			case *ast.SelectorExpr:
+				// x.Sel is a field/method/imported name, only x.X can be a package-level variable
+				ast.Inspect(x.X, func(m ast.Node) bool {
+					if id, ok := m.(*ast.Ident); ok && vars[id.Name] && !local[id.Name] {
+						used[id.Name] = true
+					}
+					return true
+				})
+				return false
+			case *ast.Ident:
+				if vars[x.Name] && !local[x.Name] {
+					used[x.Name] = true
+				}
+				if callee, ok := funcs[x.Name]; ok && !local[x.Name] {
+					visit(callee)
+				}
+			}
+			return true
+		})
+	}
+	visit(root)
+	var out []string
+	for n := range used {
+		out = append(out, n)
+	}
+	sort.Strings(out)
+	return out, nil
 }
 
 func methodsOf(f *ast.File, recv string) []string {
@@ -322,6 +437,14 @@ func genC03(repo string) (string, error) {
 		return "", err
 	}
 	fmt.Fprintf(&sb, "def readerDropCheck : String := %s\n", strconv.Quote(findIfCond(FindFunc(fa, "fieldAggregator", "AggregateBySlot"), "IsInf")))
+	// shared mutable state of the down-sampling merge (two merge jobs of different families may run at
+	// the same time): package-level variables reachable from DownSamplingMultiSeriesInto
+	pv, err := packageVarsUsed(repo, "aggregation", "DownSamplingMultiSeriesInto")
+	if err != nil {
+		return "", err
+	}
+	fmt.Fprintf(&sb, "\n/-- package-level variables `DownSamplingMultiSeriesInto` references, directly or through functions of\nits own package -/\n")
+	fmt.Fprintf(&sb, "def downSamplingPackageVars : List String := %s\n", LeanStrList(pv))
 	// target position formula
 	tp := FindAssign(multi, "targetPos")
 	if tp == nil {
